@@ -50,6 +50,10 @@ func coldModel(i, k int) *m.Model {
 }
 
 func checkCold(env *fw.Env, c ColdCase) *fw.Failure {
+	if c.Workers == 0 || len(c.Models) == 0 {
+		env.Rec.Discard("replay-file-of-another-test")
+		return nil
+	}
 	// models and tuples are planted through a first server; the server under test is created afterwards and is cold
 	seed := sut.New()
 	stores := make([]string, len(c.Models))
